@@ -11,6 +11,7 @@ import Driver.ArpCache
 import Driver.Iface
 import Driver.Socks
 import Driver.Bpf
+import Driver.Limiter
 
 /-!
 Line-protocol driver: one case per input line, `tag \t fields… \t observed`, one answer per line,
@@ -44,6 +45,10 @@ def dispatch (line : String) : String :=
   | "arpc" :: rest => (handleArpC rest).getD "BAD-CASE\t0"
   | "socks" :: rest => (handleSocks rest).getD "BAD-CASE\t0"
   | "socksio" :: rest => (handleSocksIO rest).getD "BAD-CASE\t0"
+  | "lim" :: rest => (handleLim rest).getD "BAD-CASE\t0"
+  | "limconc" :: rest => (handleLimConc rest).getD "BAD-CASE\t0"
+  | "limwrap" :: rest => (handleLimWrap rest).getD "BAD-CASE\t0"
+  | "limrt" :: rest => (handleLimRT rest).getD "BAD-CASE\t0"
   | _ => "BAD-TAG\t0"
 
 partial def loop (h : IO.FS.Stream) (out : IO.FS.Stream) : IO Unit := do
